@@ -16,9 +16,25 @@ type vGzipErr struct{}
 
 func (vGzipErr) Error() string { return "gzip: invalid header" }
 
-// stubGzipNewReader: data that does not start with the gzip magic is rejected, as
-// compress/gzip does; well-formed gzip streams are outside the bound (path ends).
+// stubGzipNewReader: a request body marked gz is a well-formed gzip stream of its raw bytes and
+// yields a reader that produces them; stored data that does not start with the gzip magic is
+// rejected, as compress/gzip does; other well-formed gzip streams are outside the bound (path ends).
+var vGzBody map[*gzip.Reader]*vBody
+
 func stubGzipNewReader(r io.Reader) (*gzip.Reader, error) {
+	if b, ok := r.(*vBody); ok {
+		if !b.gz {
+			return nil, vGzipErr{}
+		}
+		zr := new(gzip.Reader)
+		vJSONMu.Lock()
+		if vGzBody == nil {
+			vGzBody = map[*gzip.Reader]*vBody{}
+		}
+		vGzBody[zr] = &vBody{raw: b.raw, decode: b.decode}
+		vJSONMu.Unlock()
+		return zr, nil
+	}
 	if b, ok := r.(*bytes.Buffer); ok {
 		d := b.Bytes()
 		if len(d) < 2 {
